@@ -25,7 +25,8 @@ func genCaseC08(t *rapid.T) *c08Case {
 	d, vars := GenDoc(t, base.Schema, p, false)
 	base.Doc, base.Vars = d, vars
 	base.Op = d.Ops[0].Name
-	base.LateRegister = rapid.IntRange(0, 3).Draw(t, "lateRegister") == 0
+	// (registrations that arrive late would find a crossed name taken by the by-name binding already)
+	base.LateRegister = rapid.IntRange(0, 3).Draw(t, "lateRegister") == 0 && !base.CrossedNames
 	base.ViaAPI = rapid.IntRange(0, 3).Draw(t, "schemaViaGoAPI") == 0
 	base.KeepParsed = base.LateRegister && rapid.Bool().Draw(t, "keepParsed")
 	if rapid.IntRange(0, 2).Draw(t, "lateJoin") == 0 {
@@ -153,6 +154,9 @@ func TestC08(t *testing.T) {
 		}
 		if c.RefusedSDL != "" {
 			cl = append(cl, "refused-document-with-further-memberships-first")
+		}
+		if c.CrossedNames {
+			cl = append(cl, "object-type-named-like-the-go-type-of-another")
 		}
 		for tn, b := range bind {
 			fam := "X"
